@@ -1459,6 +1459,17 @@ class OutlineOTFCompiler(BaseOutlineCompiler):
         if self.vertical:
             self.setupTable_VORG()
 
+    @staticmethod
+    def _normalizeCFFString(s, encoding="latin-1"):
+        # what does not fit the single-byte encoding of a CFF string is reduced
+        # like Notice and Copyright
+        if s:
+            try:
+                s.encode(encoding)
+            except UnicodeEncodeError:
+                s = normalizeStringForPostscript(s)
+        return s
+
     def setupTable_CFF(self):
         """Make the CFF table."""
         if not {"CFF", "CFF "}.intersection(self.tables):
@@ -1538,11 +1549,15 @@ class OutlineOTFCompiler(BaseOutlineCompiler):
         if copyright is None:
             copyright = ""
         topDict.Copyright = copyright
-        topDict.FullName = getAttrWithFallback(info, "postscriptFullName")
-        topDict.FamilyName = getAttrWithFallback(
-            info, "openTypeNamePreferredFamilyName"
+        topDict.FullName = self._normalizeCFFString(
+            getAttrWithFallback(info, "postscriptFullName")
         )
-        topDict.Weight = getAttrWithFallback(info, "postscriptWeightName")
+        topDict.FamilyName = self._normalizeCFFString(
+            getAttrWithFallback(info, "openTypeNamePreferredFamilyName")
+        )
+        topDict.Weight = self._normalizeCFFString(
+            getAttrWithFallback(info, "postscriptWeightName"), "ascii"
+        )
         # populate various numbers
         topDict.isFixedPitch = int(getAttrWithFallback(info, "postscriptIsFixedPitch"))
         topDict.ItalicAngle = float(getAttrWithFallback(info, "italicAngle"))
